@@ -21,6 +21,22 @@ Theorem C17_run_prefix : forall (A : Type) (P : list (srule A)), (forall r, In r
   exists T0 : interp (gatom A), equilibriumP _ T0 (union _ (prog A h P) (aux_theory _ (dec A h))) /\
                                 forall k a, k <= h -> tr A T0 k a = tr A T' k a.
 Proof. exact prefix_impl. Qed.
+(* body formulas (&tel with past operators; the model of Theory.translate, Model/BodyTheoryFull.v): the value of a formula built from atoms, constants,
+   Boolean connectives, previous / weak previous (n-fold), initially, since and trigger at a state depends on the states up to it only, not on the horizon and not on later states ... *)
+Require Import PastFormulas.
+Theorem C17_past_body_formulas_ignore_the_horizon : forall (A : Type) (f : F.bf A), past_bf A f = true ->
+  forall (h h' : nat) (T T' : F.trace A) (k : nat), (forall j a, j <= k -> T j a = T' j a) -> F.lsat A h T f k = F.lsat A h' T' f k.
+Proof. exact past_formulas_ignore_the_horizon. Qed.
+(* ... and neither does the literal the translation ties to it: in two states of the translation reached at any two horizons, the literals cached for
+   a past formula at state k have the same value, over two traces with the same first k+1 states, under any two assignments of the auxiliary atoms that violate no constraint *)
+Theorem C17_past_literals_are_never_rewritten : forall (A : Type) (D : forall a b : A, {a = b} + {a <> b}) (h : nat) (s : F.st A) (h' : nat) (s' : F.st A),
+  F.Inv A D h nil s -> F.Wf A D s -> F.Inv A D h' nil s' -> F.Wf A D s' ->
+  forall (T T' : F.trace A) (v v' : nat -> bool), F.ok_cls A T v s -> F.ok_ext A D v s -> F.ok_cls A T' v' s' -> F.ok_ext A D v' s' ->
+  forall (f : F.bf A) (k : nat) (l l' : F.lit A), past_bf A f = true -> (forall j a, j <= k -> T j a = T' j a) ->
+  F.cached A D s f k l -> F.cached A D s' f k l' -> F.ev A T v l = F.ev A T' v' l'.
+Proof. exact past_literals_are_never_rewritten. Qed.
+Print Assumptions C17_past_body_formulas_ignore_the_horizon.
+Print Assumptions C17_past_literals_are_never_rewritten.
 Print Assumptions C17_prefix_closed.
 Print Assumptions C17_past_ignores_horizon.
 Print Assumptions C17_run_prefix.
